@@ -5,7 +5,7 @@ cluster-wide status maps
 Executable model (core Lean only) of
 
 * `pintracker/stateless/stateless.go`: `Status`, `StatusAll`, `localStatus`,
-  `ipfsStatusAll` (two `PinLs` calls, "direct" and "recursive", merged);
+  `ipfsStatusAll` (two `PinLs` calls, "direct" and "recursive", kept per mode);
 * `pintracker/optracker`: `Operation.ToTrackerStatus`, and the life cycle that
   decides which operations are still in the tracker's table (`Clean` after
   `PhaseDone`);
@@ -117,12 +117,10 @@ def pinLs (direct : Bool) (held : Ipfs) : Option IpfsStatus :=
   | .recursive, false => some .recursive
   | _, _ => none
 
-/-- `ipfsStatusAll`: the two listings merged into one map ("direct" first,
-then "recursive" written over it). -/
-def ipfsListing (held : Ipfs) : Option IpfsStatus :=
-  match pinLs false held with
-  | some s => some s
-  | none => pinLs true held
+/-- `ipfsStatusAll`: one listing per pin mode (`PinLs("direct")`,
+`PinLs("recursive")`); `localStatus` looks a pin up in the listing of its own
+mode: `localpis[p.MaxDepth.ToPinMode()][p.Cid]`. -/
+def ipfsListing (direct : Bool) (held : Ipfs) : Option IpfsStatus := pinLs direct held
 
 /-! ## Operations (pintracker/optracker) -/
 
@@ -211,7 +209,7 @@ def localEntry (i : Input) (incExtra : Bool) (f : Nat) (r : Rec) : Option Nat :=
       else if p.isRemote i.self then
         if !incExtra || !matchF f stRemote then none else some stRemote
       else
-        match (if wantIpfs f then ipfsListing r.ipfs else none) with
+        match (if wantIpfs f then ipfsListing p.direct r.ipfs else none) with
         | some ips => some (ipfsToTracker ips)    -- case pinnedInIpfs
         | none => some stUnexpectedlyUnpinned     -- default
 
